@@ -31,6 +31,9 @@ def norm(d):
     return re.sub(r"#\d+", "", d)
 
 
+LEN_TRY_FROM = {"u8": "core::convert::num::ptr_try_from_impls::<impl core::convert::TryFrom<usize> for u8>::try_from"}
+
+
 def row_matches(seg, row, P):
     """does a segment of the success path realise one row of the U2F layout for payload term P?"""
     if "field" in row:
@@ -38,9 +41,14 @@ def row_matches(seg, row, P):
         return seg.kind == ("byte" if row["append"] == "push" else "chunk") and seg.term == want
     if "len_of" in row:
         t = seg.term if seg.kind == "byte" else None
-        if not t or t[0] != "cast" or t[2] != row["as"]:
+        if not t:
             return False
-        c = t[1]
+        if t[0] == "cast" and t[2] == row["as"]:
+            c = t[1]        # `len as u8`: lossless by clause B-cast (static capacity <= 255)
+        elif t[0] == "proj" and t[2] == S.OK and t[1][0] == "call" and t[1][1] == LEN_TRY_FROM.get(row["as"]) and len(t[1][2]) == 1:
+            c = t[1][2][0]  # `u8::try_from(len)`'s Ok value: the checked spelling of the same byte
+        else:
+            return False
         return c[0] == "call" and method_of(c[1]) == "len" and len(c[2]) == 1 and cnorm(c[2][0]) == ("field", P, row["len_of"])
     if "be_bytes_of" in row:
         return seg.kind == "be" and seg.n == {"u16": 2, "u32": 4, "u64": 8}[row["width"]] and seg.term == ("field", P, row["be_bytes_of"]) and seg.guard is None
@@ -62,7 +70,7 @@ def run(ctx):
         if ctx.oblige("C09|ser|anchor", fn is not None, "anchor missing: ctap1::Response::serialize", cfg=cfg):
             bname = [n for p in fn["params"] for n, i in H.pat_bindings(p) if n != "self"]
             c = Chain2(F, fn, buf=("param", bname[0]))
-            n_sites = c.check_common(ctx, cfg, "C09|ser", "ctap1::Response::serialize")
+            n_sites = c.check_common(ctx, cfg, "C09|ser", "ctap1::Response::serialize", conversions=tuple(LEN_TRY_FROM.values()))
             by_variant = {}
             for p in c.success_paths():
                 v = c.sym.lookup(p, ("param", "self"))
